@@ -1,0 +1,111 @@
+//! Verification hooks. Compiled only with the `verif` cargo feature, which is
+//! off by default; nothing in here is reachable from a normal build.
+//!
+//! * a virtual clock: [`Instant`] mirrors the part of `std::time::Instant`
+//!   that the transfer worker uses. Until [`enable_virtual_time()`] is called
+//!   it forwards to the real clock; afterwards every thread reads its own
+//!   thread-local simulated clock, moved only by [`set_now()`] / [`advance()`].
+//! * a write failpoint consulted by `Window::empty` before each chunk is
+//!   written, armed per thread with [`set_write_budget()`].
+
+use std::cell::Cell;
+use std::io;
+use std::ops::Sub;
+use std::sync::atomic::{AtomicBool, Ordering};
+use std::time::Duration;
+
+/// Origin of every thread's virtual clock; large enough that the worker can
+/// subtract `timeout + buffer` from `now()` without underflow.
+pub const VIRTUAL_EPOCH: Duration = Duration::from_secs(1_000_000);
+
+static VIRTUAL: AtomicBool = AtomicBool::new(false);
+
+thread_local! {
+    static NOW: Cell<Duration> = const { Cell::new(VIRTUAL_EPOCH) };
+    static WRITE_BUDGET: Cell<Option<u64>> = const { Cell::new(None) };
+}
+
+/// Switches the whole process to virtual time (cannot be undone).
+pub fn enable_virtual_time() {
+    VIRTUAL.store(true, Ordering::SeqCst);
+}
+
+/// Returns `true` once [`enable_virtual_time()`] has been called.
+pub fn virtual_time_enabled() -> bool {
+    VIRTUAL.load(Ordering::SeqCst)
+}
+
+/// Current value of the calling thread's virtual clock.
+pub fn virtual_now() -> Duration {
+    NOW.with(|n| n.get())
+}
+
+/// Sets the calling thread's virtual clock.
+pub fn set_now(now: Duration) {
+    NOW.with(|n| n.set(now));
+}
+
+/// Advances the calling thread's virtual clock.
+pub fn advance(by: Duration) {
+    NOW.with(|n| n.set(n.get() + by));
+}
+
+/// Arms (`Some(n)`: the next `n` chunk writes succeed, the one after fails)
+/// or disarms (`None`) the write failpoint of the calling thread.
+pub fn set_write_budget(budget: Option<u64>) {
+    WRITE_BUDGET.with(|b| b.set(budget));
+}
+
+/// Called by `Window::empty` before each chunk is written.
+pub fn write_failpoint() -> io::Result<()> {
+    WRITE_BUDGET.with(|b| match b.get() {
+        None => Ok(()),
+        Some(0) => Err(io::Error::new(
+            io::ErrorKind::Other,
+            "injected write failure (verif failpoint)",
+        )),
+        Some(n) => {
+            b.set(Some(n - 1));
+            Ok(())
+        }
+    })
+}
+
+/// Drop-in for the subset of `std::time::Instant` used by the worker.
+#[derive(Clone, Copy, Debug)]
+pub enum Instant {
+    /// Real monotonic time (virtual time not enabled).
+    Real(std::time::Instant),
+    /// Reading of the thread-local virtual clock.
+    Virtual(Duration),
+}
+
+impl Instant {
+    /// `std::time::Instant::now()` or the thread's virtual clock.
+    pub fn now() -> Instant {
+        if virtual_time_enabled() {
+            Instant::Virtual(virtual_now())
+        } else {
+            Instant::Real(std::time::Instant::now())
+        }
+    }
+
+    /// Time elapsed since this instant on the clock it was read from.
+    pub fn elapsed(&self) -> Duration {
+        match self {
+            Instant::Real(t) => t.elapsed(),
+            Instant::Virtual(t) => virtual_now().saturating_sub(*t),
+        }
+    }
+}
+
+impl Sub<Duration> for Instant {
+    type Output = Instant;
+
+    fn sub(self, rhs: Duration) -> Instant {
+        match self {
+            Instant::Real(t) => Instant::Real(t - rhs),
+            Instant::Virtual(t) => Instant::Virtual(t.saturating_sub(rhs)),
+        }
+    }
+}
